@@ -997,7 +997,7 @@ func gatherOperations(specDoc *analysis.Spec, operationIDs []string) map[string]
 		}
 
 		oo, found := operations[nm]
-		if found && oo.Method != opr.Method && oo.Path != opr.Path {
+		if found && (oo.Method != opr.Method || oo.Path != opr.Path) {
 			nm = opr.Key
 		}
 		if len(operationIDs) == 0 || swag.ContainsStrings(operationIDs, opr.ID) || swag.ContainsStrings(operationIDs, nm) {
